@@ -178,6 +178,8 @@ func tail(s string, n int) string {
 	return s
 }
 
+const detPrefix = 120
+
 type crossDiff struct {
 	Index          int
 	What           string
@@ -200,6 +202,7 @@ type merged struct {
 	ClockMin, ClockMax     string
 	WorkerWall             float64
 	ChunkHashes            map[int]string
+	PrefixHashes           map[int]string // event hashes of the first runs of each chunk
 	PerProcess, PerProcessQ []string
 	PerProcessChunk         int
 	Cross                   map[int]crossDiff
@@ -265,7 +268,7 @@ func cmdCheck(prop, tier string, seed uint64, runsOverride int, keep bool) int {
 		chunk = runs
 	}
 	m := &merged{Faults: map[string]int64{}, Probes: map[string]int64{}, Dropped: map[string]int64{}, Strategies: map[string]int64{},
-		Sigs: map[string]struct{}{}, RaceLogs: map[int]string{}, ChunkHashes: map[int]string{}, Cross: map[int]crossDiff{}}
+		Sigs: map[string]struct{}{}, RaceLogs: map[int]string{}, ChunkHashes: map[int]string{}, PrefixHashes: map[int]string{}, Cross: map[int]crossDiff{}}
 	type job struct{ from, to int }
 	jobs := make(chan job, 1024)
 	var wg sync.WaitGroup
@@ -283,7 +286,7 @@ func cmdCheck(prop, tier string, seed uint64, runsOverride int, keep bool) int {
 				if stop {
 					continue
 				}
-				jr := c.runWorker(1, timeout, "-from", fmt.Sprint(j.from), "-to", fmt.Sprint(j.to), "-samples", "1")
+				jr := c.runWorker(1, timeout, "-from", fmt.Sprint(j.from), "-to", fmt.Sprint(j.to), "-samples", "1", "-hashes")
 				mu.Lock()
 				if jr.err != nil {
 					if firstErr == nil {
@@ -327,6 +330,13 @@ func cmdCheck(prop, tier string, seed uint64, runsOverride int, keep bool) int {
 				}
 				m.WorkerWall += r.WallS
 				m.ChunkHashes[j.from] = r.ChunkHash
+				if len(r.RunHashes) > 0 {
+					n := len(r.RunHashes)
+					if n > detPrefix {
+						n = detPrefix
+					}
+					m.PrefixHashes[j.from] = strings.Join(r.RunHashes[:n], ",")
+				}
 				if len(r.PerProcess) > 0 {
 					if m.PerProcess == nil {
 						m.PerProcess, m.PerProcessQ, m.PerProcessChunk = r.PerProcess, r.PerProcessQ, j.from
@@ -410,7 +420,10 @@ func cmdCheck(prop, tier string, seed uint64, runsOverride int, keep bool) int {
 		var dwg sync.WaitGroup
 		for i := 0; i < len(froms) && detChecked < detChunks; i += step {
 			f := froms[i]
-			to := f + chunk
+			to := f + detPrefix // the first runs of the chunk are enough: re-execution at GOMAXPROCS 16 is slow (parked tasks spin)
+			if to > f+chunk {
+				to = f + chunk
+			}
 			if to > runs {
 				to = runs
 			}
@@ -419,7 +432,7 @@ func cmdCheck(prop, tier string, seed uint64, runsOverride int, keep bool) int {
 			go func(f, to, k int) {
 				defer dwg.Done()
 				gmp := []int{4, 16}[k%2]
-				jr := c.runWorker(gmp, 4*timeout, "-from", fmt.Sprint(f), "-to", fmt.Sprint(to), "-samples", "0")
+				jr := c.runWorker(gmp, 4*timeout, "-from", fmt.Sprint(f), "-to", fmt.Sprint(to), "-samples", "0", "-hashes")
 				mu.Lock()
 				defer mu.Unlock()
 				if jr.err != nil {
@@ -428,9 +441,9 @@ func cmdCheck(prop, tier string, seed uint64, runsOverride int, keep bool) int {
 					}
 					return
 				}
-				if jr.res.ChunkHash != m.ChunkHashes[f] {
+				if got := strings.Join(jr.res.RunHashes, ","); got != m.PrefixHashes[f] {
 					detMismatch++
-					fmt.Fprintf(os.Stderr, "determinism: chunk %d..%d hash %s at GOMAXPROCS=1 but %s at GOMAXPROCS=%d\n", f, to, m.ChunkHashes[f], jr.res.ChunkHash, gmp)
+					fmt.Fprintf(os.Stderr, "determinism: runs %d..%d have event hashes %s at GOMAXPROCS=1 but %s at GOMAXPROCS=%d\n", f, to, oneLine(m.PrefixHashes[f], 200), oneLine(got, 200), gmp)
 				}
 			}(f, to, detChecked)
 		}
@@ -592,7 +605,7 @@ func cmdCheck(prop, tier string, seed uint64, runsOverride int, keep bool) int {
 			"dropped":                                   m.Dropped,
 			"strategies":                                m.Strategies,
 			"simulated_clock_span":                      map[string]string{"min": m.ClockMin, "max": m.ClockMax},
-			"determinism_guard":                         map[string]interface{}{"chunks_reexecuted_in_second_process": detChecked, "gomaxprocs": []int{4, 16}, "mismatches": detMismatch},
+			"determinism_guard":                         map[string]interface{}{"chunks_whose_first_runs_were_reexecuted_in_a_second_process": detChecked, "runs_per_chunk": detPrefix, "gomaxprocs": []int{4, 16}, "mismatches": detMismatch},
 			"known_findings_matched":                    knownMatched,
 			"real_vs_stub":                              realStub,
 			"seams":                                     b.instr.Seams,
